@@ -100,6 +100,9 @@ LimAfter(l, outcome) ==
 (* Properties over a state Q (C17 / C18 state parts) *)
 BacklogBound(Q) == \A q \in DOMAIN Q : Cardinality(QueuedOf(Q[q])) <= Q[q].backlog
 WorkerBound(Q) == \A q \in DOMAIN Q : Q[q].maxW < 0 \/ ActiveWorkers(Q[q]) <= Q[q].maxW
+\* the back-off level never falls behind the number of consecutive allocation failures: a submission that the batch system
+\* accepts in the middle of a series of failing allocations does not make the queue impatient again
+BackoffCoversFailures(Q) == \A q \in DOMAIN Q : Q[q].lim.level >= Min2(Q[q].lim.allocFails, Len(Delays) - 1)
 AllocSize(Q) == \A q \in DOMAIN Q : \A a \in DOMAIN Q[q].allocs : Q[q].allocs[a].target >= 1 /\ Q[q].allocs[a].target <= Q[q].maxPer
 RunningShape(Q) ==
   \A q \in DOMAIN Q : \A a \in DOMAIN Q[q].allocs :
